@@ -135,7 +135,7 @@ func specsBase() []*Spec {
 		},
 		{
 			ID:     "C20",
-			Units:  []Unit{{Pkg: "extra/x25519", Job: "C20", Instr: "trace", Quick: []string{"default", "noasm", "force32bit", "appengine"}, Thorough: allCfg}},
+			Units:  []Unit{{Pkg: "extra/x25519", Job: "C20", Instr: "trace", Quick: []string{"default", "noasm", "force32bit", "appengine", "noasm+appengine", "force32bit+appengine", "386"}, Thorough: allCfg}},
 			Rule:   "E4 (2-safety by self-composition on traces): the five packages are rebuilt with every branch condition, short-circuit operand, switch tag, loop iteration, non-constant index / slice bound and variable-time primitive (bytes.Equal/Compare/...: leak model = lengths and common-prefix length) wrapped in logging identity functions (type-checked source instrumentation of the current tree). For each of 11 scenarios (NewKeyFromSeed, GenerateKey, Sign pure/ctx/ph, ScalarBaseMult, X25519(s, Basepoint), EdPrivateKeyToX25519, PrivateKey.Equal with the secret as receiver / as argument, Public/Seed) the public shape is fixed and the secret ranges over an alphabet (1056 seeds: LE32(0..1023) incl. 0xff..ff, 32 hash-derived; thorough 8224; the nibble-pattern scalar alphabet for X25519: every digit value at every position; key pairs agreeing with the other key in the first j bytes, j in {0,1,2,16,31,32,33,62,63,64}); all executions of a scenario must produce one identical event trace; on a mismatch both runs are repeated with full logs and the first diverging site is reported. The assembly selector is checked by a straight-line scanner (allow-listed opcodes, no J*/CALL/LOOP, memory operands only const(R14), const(R15), name+const(FP), base registers never rewritten).",
 			Assume: []string{"control flow, indices and declared variable-time primitives of the library's own Go code; not micro-architectural timing, compiler code generation, or the standard library's internals (crypto/sha512, crypto/subtle, encoding/binary, math/bits are the trusted constant-time base)", "since fix F5 the generic X25519 ladder is library code: it is traced as an advisory scenario (not among the operations the property lists; a divergence is recorded in the evidence, not raised)"},
 		},
